@@ -1,7 +1,7 @@
 (** C19 — proofs about the CLI model (model/Cli.v) against the documented behaviour
     (spec/CliSpec.v) and the generated tables (gen/CliTable.v). *)
 From Coq Require Import Permutation.
-From WacV Require Import Str Show CliTypes CliTable Semver Cli CliSpec.
+From WacV Require Import Str Show CliTypes CliTable Semver Cli CliWorlds CliSpec.
 
 (** * Strings *)
 
@@ -347,13 +347,6 @@ Section ComposeProofs.
     try (left; eexists; intros; reflexivity);
     try (right; eexists; split; [eexists; left; reflexivity | reflexivity]).
   Qed.
-
-  Definition with_output (f : compose_flags) (o : option str) : compose_flags :=
-    mk_cf (cf_deps_dir f) (cf_deps f) (cf_sw f) o (cf_registry f) (cf_path f).
-  Definition with_wat (f : compose_flags) (w : bool) : compose_flags :=
-    mk_cf (cf_deps_dir f) (cf_deps f)
-          (mk_sw (sw_no_validate (cf_sw f)) w (sw_import_dependencies (cf_sw f)))
-          (cf_output f) (cf_registry f) (cf_path f).
 
   (** [-o] writes exactly the bytes otherwise sent to stdout (text on stdout is followed by a
       newline); a run that fails fails identically with and without [-o]. *)
@@ -793,8 +786,8 @@ Section PlugProofs.
     destruct (keyed plugs) as [ks|]; [|right; eexists; split; [eexists; left; reflexivity | reflexivity]].
     match goal with |- context[addp ?reg ?g ?acc ?l _] =>
       destruct (add_plugs_cases reg l g acc) as [[g2 [ids H]] | [o [So H]]] end.
-    - assert (forall k, exists o, o = k) as _ by eauto.
-      destruct (do_plug g2 ids (snd a1)) as [g'| |] eqn:Edp.
+    - match type of H with forall k, add_plugs _ _ _ _ _ (fst ?gs) _ _ k = _ => rename gs into gsock end.
+      destruct (do_plug g2 ids (snd gsock)) as [g'| |] eqn:Edp.
       + destruct (encode_g g' (plug_opts (pf_sw f))) as [b| |] eqn:Ee.
         * left. exists b. intros k. rewrite H. cbn [bind]. rewrite Edp. cbn [bind]. rewrite Ee. reflexivity.
         * right. exists (fail StEncode). split; [eexists; left; reflexivity|]. intros k.
@@ -807,11 +800,6 @@ Section PlugProofs.
         rewrite H. cbn [bind]. rewrite Edp. reflexivity.
     - right. exists o. split; auto.
   Qed.
-
-  Definition with_poutput (f : plug_flags) (o : option str) : plug_flags :=
-    mk_pf (pf_plugs f) (pf_socket f) (pf_sw f) o (pf_registry f).
-  Definition with_pwat (f : plug_flags) (w : bool) : plug_flags :=
-    mk_pf (pf_plugs f) (pf_socket f) (mk_psw w) (pf_output f) (pf_registry f).
 
   Theorem plug_o_equals_stdout f p :
     write_ok p = true ->
